@@ -336,9 +336,14 @@ func c05(c *ctx) {
 	if deductFees != nil && pluginDeliver != nil {
 		c.mpt(mptSpec{
 			rule: "R3", fn: applyTx,
-			events:    evSet{"CheckTx": {checkTx}, "DeductFees": {deductFees}},
-			target:    tgtAny(tgtCall("AccountDeductFees", deductFees), tgtCall("HandleMessage", handleMessage), tgtCall("DeliverTx", pluginDeliver)),
-			reqs:      func(l string) []string { if l == "HandleMessage" { return []string{"CheckTx.ok", "DeductFees.ok"} }; return []string{"CheckTx.ok"} },
+			events: evSet{"CheckTx": {checkTx}, "DeductFees": {deductFees}},
+			target: tgtAny(tgtCall("AccountDeductFees", deductFees), tgtCall("HandleMessage", handleMessage), tgtCall("DeliverTx", pluginDeliver)),
+			reqs: func(l string) []string {
+				if l == "HandleMessage" {
+					return []string{"CheckTx.ok", "DeductFees.ok"}
+				}
+				return []string{"CheckTx.ok"}
+			},
 			minTarget: 3,
 		})
 		for _, cs := range callsIn(applyTx, false, deductFees) {
@@ -380,9 +385,9 @@ func c05(c *ctx) {
 				}
 				return ""
 			},
-			resets: map[string][]string{"CheckTx": {"recordFailed"}},
-			target: tgtAny(tgtCall("next-precheck", checkTx), tgtCall("batch-verify", batchVerify)),
-			reqs:   func(string) []string { return []string{"!seen:CheckTx|CheckTx.ok|seen:recordFailed"} },
+			resets:    map[string][]string{"CheckTx": {"recordFailed"}},
+			target:    tgtAny(tgtCall("next-precheck", checkTx), tgtCall("batch-verify", batchVerify)),
+			reqs:      func(string) []string { return []string{"!seen:CheckTx|CheckTx.ok|seen:recordFailed"} },
 			minTarget: 2,
 		})
 		// verdicts are recorded: the result of Verify() is ranged over and stored into the map the loop consults
